@@ -69,6 +69,109 @@ def may_raise(stmt):
     return False
 
 
+CATCH_ALL = {'Exception', 'BaseException'}
+
+# exception type (last dotted component) -> what kind of statement can raise
+# it; a handler for one of these does not catch what other statements raise
+_RAISERS = {
+    'Empty'        : lambda st: _has_queue_get(st),
+    'Full'         : lambda st: _has_call_attr(st, ('put', 'put_nowait')),
+    'StopIteration': lambda st: _has_call_name(st, ('next',)),
+    'TimeoutExpired': lambda st: _has_call_attr(st, ('wait', 'communicate',
+                                                     'join', 'run')),
+}
+
+
+def _has_call_attr(st, attrs):
+    return any(isinstance(n, ast.Call) and isinstance(n.func, ast.Attribute)
+               and n.func.attr in attrs for n in walk(st))
+
+
+def _has_queue_get(st):
+    # q.get(timeout=..) / q.get() / q.get_nowait(); d.get('key'[, default]) is
+    # a mapping lookup and never raises queue.Empty
+    for n in walk(st):
+        if isinstance(n, ast.Call) and isinstance(n.func, ast.Attribute):
+            if n.func.attr == 'get_nowait':
+                return True
+            if n.func.attr == 'get' and not (
+                    n.args and isinstance(n.args[0], ast.Constant) and
+                    isinstance(n.args[0].value, str)):
+                return True
+    return False
+
+
+def _has_call_name(st, names):
+    return any(isinstance(n, ast.Call) and isinstance(n.func, ast.Name)
+               and n.func.id in names for n in walk(st))
+
+
+class _TryFrame:
+    """exception routing for the body of one try statement: a statement gets
+    an edge to a dispatch node which leads to the handlers that may catch what
+    the statement can raise, and onwards if none of them is catch-all"""
+
+    def __init__(self, try_ast, uncaught, ctx):
+        self.ast = try_ast
+        self.ctx = ctx                    # (loops, tries, withs) at the try
+        self.uncaught = uncaught          # node id or outer _TryFrame
+        self.handlers = []                # [(handler node id, type names)]
+        self.cache = {}
+
+    def compatible(self, names, stmt):
+        if names is None or stmt is None:
+            return True
+        if isinstance(stmt, ast.Raise):
+            if stmt.exc is None:
+                return True
+            raised = stmt.exc.func if isinstance(stmt.exc, ast.Call) \
+                else stmt.exc
+            rname = unparse(raised).split('.')[-1]
+            for nm in names:
+                last = nm.split('.')[-1]
+                if last in CATCH_ALL or last == rname:
+                    return True
+                if last in _RAISERS:
+                    continue
+                # unknown relation between two named types: may match
+                if rname[:1].islower():
+                    return True           # raise of a variable
+            return False
+        for nm in names:
+            last = nm.split('.')[-1]
+            if last in _RAISERS:
+                if _RAISERS[last](stmt):
+                    return True
+            else:
+                return True
+        return False
+
+    def dispatch(self, cfg, stmt):
+        comp = []
+        caught = False
+        for hid, names in self.handlers:
+            if self.compatible(names, stmt):
+                comp.append(hid)
+                if names is None or any(n.split('.')[-1] in CATCH_ALL
+                                        for n in names):
+                    caught = True
+                    break
+        if not comp:
+            return cfg._exc_dst(self.uncaught, stmt)
+        # the onward target may depend on the statement (outer frames)
+        onward = None if caught else cfg._exc_dst(self.uncaught, stmt)
+        key = (tuple(comp), onward)
+        if key in self.cache:
+            return self.cache[key]
+        d = cfg._new_ctx('dispatch', self.ast, self.ctx)
+        for hid in comp:
+            cfg._edge(d.id, hid, 'exc')
+        if onward is not None:
+            cfg._edge(d.id, onward, 'exc')
+        self.cache[key] = d.id
+        return d.id
+
+
 class CFG:
 
     def __init__(self, func_node, exc_everywhere=False):
@@ -101,6 +204,15 @@ class CFG:
     def _new(self, kind, node):
         n = Node(len(self.nodes), kind, node, getattr(self, '_loops', ()),
                  getattr(self, '_tries', ()), getattr(self, '_withs', ()))
+        self.nodes.append(n)
+        self.succ[n.id] = []
+        self.pred[n.id] = []
+        for h in n.loops:
+            self.loop_body[h].add(n.id)
+        return n
+
+    def _new_ctx(self, kind, node, ctx):
+        n = Node(len(self.nodes), kind, node, ctx[0], ctx[1], ctx[2])
         self.nodes.append(n)
         self.succ[n.id] = []
         self.pred[n.id] = []
@@ -158,7 +270,14 @@ class CFG:
         # exception edges only where somebody may catch them (or on request)
         if (self._exc_target[-1] != self.raise_.id or self.exc_everywhere) \
                 and may_raise(stmt):
-            self._edge(n.id, self._exc_target[-1], 'exc')
+            self._edge(n.id, self._exc_dst(self._exc_target[-1], stmt), 'exc')
+
+    def _exc_dst(self, target, stmt):
+        """node id an exception raised by `stmt` goes to, for a target that
+        is a node id or a try frame"""
+        if isinstance(target, int):
+            return target
+        return target.dispatch(self, stmt)
 
     # --------------------------------------------------------------------------
     def _jump(self, ends, kind):
@@ -263,7 +382,7 @@ class CFG:
         if isinstance(s, ast.Raise):
             n = self._new('stmt', s)
             self._connect(ends, n.id)
-            self._edge(n.id, self._exc_target[-1], 'exc')
+            self._edge(n.id, self._exc_dst(self._exc_target[-1], s), 'exc')
             return []
 
         if isinstance(s, ast.Break):
@@ -281,7 +400,7 @@ class CFG:
         if isinstance(s, ast.Assert):
             n = self._new('stmt', s)
             self._connect(ends, n.id)
-            self._edge(n.id, self._exc_target[-1], 'exc')
+            self._edge(n.id, self._exc_dst(self._exc_target[-1], s), 'exc')
             return [(n.id, 'next')]
 
         if hasattr(ast, 'Match') and isinstance(s, ast.Match):
@@ -325,7 +444,8 @@ class CFG:
                     fin_cache[kind] = (j.id, self._block(s.finalbody,
                                                          [(j.id, 'next')]))
                     if kind == 'exc':
-                        self._connect(fin_cache[kind][1], outer_exc)
+                        self._connect(fin_cache[kind][1],
+                                      self._exc_dst(outer_exc, None))
                 jid, fends = fin_cache[kind]
                 self._connect(in_ends, jid)
             finally:
@@ -359,32 +479,29 @@ class CFG:
 
         out = []
         if s.handlers:
-            disp = self._new('dispatch', s)
-            # body
-            self._tries = outer_tries + (s,)
-            self._exc_target.append(disp.id)
-            body_ends = self._block(s.body, ends)
-            self._exc_target.pop()
-            self._tries = outer_tries
-            # handlers: exceptions inside a handler go to `uncaught`
-            catch_all = False
-            self._exc_target.append(uncaught)
+            tframe = _TryFrame(s, uncaught,
+                               (outer_loops, outer_tries, outer_withs))
             for h in s.handlers:
                 hn = self._new('handler', h)
-                self._edge(disp.id, hn.id, 'exc')
-                out += self._block(h.body, [(hn.id, 'next')])
                 if h.type is None:
-                    catch_all = True
+                    names = None
                 else:
                     names = [unparse(t) for t in
                              (h.type.elts if isinstance(h.type, ast.Tuple)
                               else [h.type])]
-                    if 'Exception' in names or 'BaseException' in names:
-                        catch_all = True
+                tframe.handlers.append((hn.id, names))
+            # body
+            self._tries = outer_tries + (s,)
+            self._exc_target.append(tframe)
+            body_ends = self._block(s.body, ends)
             self._exc_target.pop()
             self._tries = outer_tries
-            if not catch_all:
-                self._edge(disp.id, uncaught, 'exc')
+            # handlers: exceptions inside a handler go to `uncaught`
+            self._exc_target.append(uncaught)
+            for (hid, names), h in zip(tframe.handlers, s.handlers):
+                out += self._block(h.body, [(hid, 'next')])
+            self._exc_target.pop()
+            self._tries = outer_tries
         else:
             self._tries = outer_tries + (s,)
             self._exc_target.append(uncaught)
